@@ -459,7 +459,19 @@ func (c *Client) Tx(ctx context.Context, hash []byte, prove bool) (*ctypes.Resul
 	}
 
 	// Validate the proof.
-	return res, res.Proof.Validate(l.DataHash)
+	if err := res.Proof.Validate(l.DataHash); err != nil {
+		return res, err
+	}
+
+	// The proven transaction must be the one returned, and the one asked for.
+	if !bytes.Equal(res.Proof.Data, res.Tx) {
+		return nil, errors.New("proof is for a different transaction than the one returned")
+	}
+	if txH := res.Tx.Hash(); !bytes.Equal(txH, hash) || !bytes.Equal(res.Hash, hash) {
+		return nil, fmt.Errorf("tx hash %X (labelled %X) does not match the requested %X", txH, res.Hash, hash)
+	}
+
+	return res, nil
 }
 
 func (c *Client) TxSearch(
